@@ -3,6 +3,13 @@
 One driver serves both properties: the same executions are validated, C04 owns the count monitors
 (Bounded, NoFireAtFullTarget = guard of Fire, agreement at rest), C05 the progress monitors (idle at rest,
 requests served, nothing pending, every fired eject resolved).
+
+Held eject attempts (topologies HOLD_TOPOS): a handler of the environment, registered on the real
+balldevice_<dev>_ball_eject_attempt queue event through the real event manager, holds the attempt back (queue.wait()) and
+lets it go 0.5 - 5 s later or at a pinned world event (queue.clear()) while other balls move - the target of the held eject
+may fill up or empty meanwhile.  Spec actions HoldArm / Held / Unhold; the fire after the release is judged by the same
+guard of Fire (room in the target NOW).  A refused fire carries `_heldrel` (its attempt had been held and released) and
+`_heldfill` (balls that filled the target during the hold and that MPF had been shown before the instant of the fire).
 """
 import random
 
@@ -35,6 +42,10 @@ TOPO = {
                    holding=['bd_lock'], sourcing=['bd_lock']),
 }
 _H = {}
+# topologies in which eject_attempt queue events are held back (targets with two sources, and the plain chain), and the
+# devices whose attempts a handler of the environment may hold
+HOLD_TOPOS = ('balls', 'balls2', 'balls3', 'balls6')
+HOLDABLE = list(DEVS)
 
 
 class World:
@@ -65,6 +76,15 @@ class World:
         self.since = {}                # ball -> time it came to rest where it is
         self.lateballs = set()         # balls on a slow trip (arrive after the eject timeout)
         self.want = 0
+        # held eject attempts: a handler on balldevice_<dev>_ball_eject_attempt (queue event) of the environment
+        self.hold_used = False         # handlers registered (only in schedules that hold attempts)
+        self.armed = {}                # dev -> seconds the next attempt of dev will be held back
+        self.heldq = {}                # dev -> (QueuedEvent the handler is waiting on, token)
+        self.hold_log = {}             # dev -> [line of 'held', line of 'unhold' | None] of a hold no fire of dev has followed yet
+        self.occ = {}                  # ball -> log line with which it began to take up room in the place it is in / heading to
+        self.fire_idx = {}             # dev -> log line of its last fire
+        self.seen = {}                 # ball -> time MPF was first shown that it takes up that room (left its source / arrived)
+        self.ntok = 0
         if self.LAUNCH:
             self._press()
 
@@ -80,6 +100,7 @@ class World:
 
     def log(self, **kw):
         kw['m'] = self.mpf()
+        kw['_t'] = int(round(self.loop.time() * 1000))      # (virtual ms, for the reader of a replay)
         self.ev.append(kw)
 
     def at(self, place):
@@ -123,7 +144,23 @@ class World:
         last_leave = max([i for i, e in enumerate(self.ev) if e['op'] == 'leave' and e['d'] != dev and self.TG[e['d']] == tgt] or [-1])
         late_req = int(rolling > 0 and last_req > last_leave)
         slow = len([1 for b2, p in self.loc.items() if b2 in self.lateballs and isinstance(p, tuple) and p[2] == tgt])
-        self.log(op='fire', d=dev, _rolling=rolling, _same=same, _back=back, _sitting=sitting, _tfired=int(tgt in self.fired), _latereq=late_req, _slow=slow)
+        # was the eject_attempt event of this eject held back by a handler and released (the fire follows a hold), and
+        # did balls that take up room in the target now start to do so DURING that hold (the target filled up while the
+        # attempt was held: a ball fired / shot towards it, counted from the coil pulse of its source) - balls that MPF had
+        # been shown before this very instant (seen leaving their source / arriving in the target at an earlier time)?
+        # The recorded findings are races inside one instant (no slot is reserved between the readiness check, the coil
+        # pulse and the ball being seen to leave); a fire at a target that filled up earlier, in plain view, is not that.
+        hl = self.hold_log.pop(dev, None)
+        heldrel = int(bool(hl and hl[1] is not None))
+        heldfill = 0
+        if heldrel and tgt != 'pf':
+            occupants = [b2 for b2, p in self.loc.items() if p == tgt or (isinstance(p, tuple) and p[0] == 'transit' and
+                                                                           ((p[3] == 'ok' and p[2] == tgt) or (p[3] == 'back' and p[1] == tgt)))]
+            now = self.loop.time()
+            heldfill = len([b2 for b2 in occupants if hl[0] <= self.occ.get(b2, -1) < hl[1] and now - self.seen.get(b2, now) > 0.001])
+        self.fire_idx[dev] = len(self.ev)
+        self.log(op='fire', d=dev, _rolling=rolling, _same=same, _back=back, _sitting=sitting, _tfired=int(tgt in self.fired), _latereq=late_req, _slow=slow,
+                 _heldrel=heldrel, _heldfill=heldfill)
         self.fired.add(dev)
         q = self.outcomes.get(dev) or []
         kind = q.pop(0) if q else 'ok'
@@ -142,6 +179,9 @@ class World:
         if late:
             self.lateballs.add(b)
         self.loc[b] = ('transit', dev, self.TG[dev], 'ok' if late else kind)
+        if kind != 'back':
+            self.occ[b] = self.fire_idx.get(dev, len(self.ev))     # (a ball falling back never stopped taking up room in its device)
+            self.seen[b] = self.loop.time()                        # its switch opens: MPF can see it go
         self.sync_switches(dev)
         if kind != 'back' and self.released.get(dev):
             self.released[dev] -= 1
@@ -168,6 +208,7 @@ class World:
         if place in self.JAM and len(self.at(place)) == 1 and len(self.ev) % 2 == 0:
             self.jammed[place] = b      # the only ball of the device comes to rest on the jam switch alone
         self.since[b] = self.loop.time()
+        self.seen.setdefault(b, self.loop.time())
         if place == 'pf':
             self.m.switch_controller.process_switch('s_pf', 1, logical=True)
             self.m.switch_controller.process_switch('s_pf', 0, logical=True)
@@ -184,6 +225,8 @@ class World:
             return
         b = balls[0]
         self.loc[b] = ('transit', 'pf', 'bd_trough', 'ok')
+        self.occ[b] = len(self.ev)
+        self.seen.pop(b, None)
         if not self.GAME:       # (in the game topology every drain is saved: the ball is owed back)
             self.want = max(0, self.want - 1)
         self.log(op='drain', b=b)
@@ -199,6 +242,8 @@ class World:
             return
         b = balls[0]
         self.loc[b] = ('transit', 'pf', dev, 'ok')
+        self.occ[b] = len(self.ev)
+        self.seen.pop(b, None)
         if dev in self.HOLDING:
             self.want = max(0, self.want - 1)
         self.log(op='shot', b=b, d=dev)
@@ -212,6 +257,8 @@ class World:
             self.want += 1
         b = balls[-1]
         self.loc[b] = ('transit', dev, 'pf', 'ok')
+        self.occ[b] = len(self.ev)
+        self.seen.pop(b, None)
         self.sync_switches(dev)
         self.log(op='escape', b=b, d=dev)
         self.later(0.5, self.arrive, b)
@@ -259,8 +306,37 @@ class World:
         # with a launch button every third request is player controlled (the ball waits in the launcher for the button)
         self.m.playfield.add_ball(1, player_controlled=bool(self.LAUNCH and self.nreq % 3 == 0))
 
+    # ---- a handler of the environment holds the eject_attempt queue event of a device back (diverter, queue relay, show)
+    def hold(self, dev, secs):
+        """Arm the handler: the next eject attempt MPF announces for dev is held for secs (or until unhold)."""
+        if not self.hold_used or dev in self.armed or dev in self.heldq:
+            return
+        self.armed[dev] = secs
+        self.log(op='hold', d=dev)
+
+    def attempt(self, dev, queue):
+        """balldevice_<dev>_ball_eject_attempt was posted (called by the real event manager with the handler's queue)."""
+        if dev not in self.armed:
+            return
+        secs = self.armed.pop(dev)
+        queue.wait()
+        self.ntok += 1
+        self.heldq[dev] = (queue, self.ntok)
+        self.hold_log[dev] = [len(self.ev), None]
+        self.log(op='held', d=dev)
+        self.later(secs, self.unhold, dev, self.ntok)
+
+    def unhold(self, dev, tok=None):
+        if dev not in self.heldq or (tok is not None and self.heldq[dev][1] != tok):
+            return
+        queue, _ = self.heldq.pop(dev)
+        if dev in self.hold_log:
+            self.hold_log[dev][1] = len(self.ev)
+        self.log(op='unhold', d=dev)
+        queue.clear()
+
     def quiet(self):
-        return self.pending == 0 and not any(isinstance(p, tuple) for p in self.loc.values())
+        return self.pending == 0 and not self.heldq and not any(isinstance(p, tuple) for p in self.loc.values())
 
 
 def _boot(topo):
@@ -287,6 +363,12 @@ def exec_schedule(job):
                 '_tb': traceback.format_exc()[-2000:]}
 
 
+def _mk_attempt(w, dname):
+    def hnd(queue, **kwargs):
+        w.attempt(dname, queue)
+    return hnd
+
+
 def _mk_broken(w, dname):
     def hnd(**kwargs):
         w.log(op='broken', d=dname)
@@ -309,6 +391,11 @@ def _exec(sched, seed, topo):
         for dname in DEVS:
             # a device reporting itself broken is a step of the trace
             m.events.add_handler('balldevice_%s_broken' % dname, _mk_broken(w, dname))
+        if any(s['op'] == 'hold' for s in sched):
+            # (only in the schedules that use it: a handler on a queue event changes how the event is processed)
+            w.hold_used = True
+            for dname in HOLDABLE:
+                m.events.add_handler('balldevice_%s_ball_eject_attempt' % dname, _mk_attempt(w, dname))
         for cname, dev in COIL.items():
             drv = m.coils[cname].hw_driver
             orig = drv.pulse
@@ -324,6 +411,12 @@ def _exec(sched, seed, topo):
                 if w.quiet():
                     break
             h.advance_time_and_run(secs)
+            if w.hold_used:
+                # an attempt caught in the last moment is held for up to 5 s: the world is at rest only after its eject
+                for _ in range(10):
+                    if w.quiet():
+                        break
+                    h.advance_time_and_run(secs)
             pending = int(m.playfield.num_balls_requested)
             idle = all(m.ball_devices[d].state == 'idle' for d in DEVS)
             held = sum(len(w.at(d)) for d in w.HOLDING if d not in TOPO[topo].get('sourcing', []))
@@ -334,7 +427,7 @@ def _exec(sched, seed, topo):
 
         for si, s in enumerate(sched):
             op = s['op']
-            if 'after' in s and op in ('request', 'drain', 'shot', 'escape', 'bounce', 'release'):
+            if 'after' in s and op in ('request', 'drain', 'shot', 'escape', 'bounce', 'release', 'hold', 'unhold', 'wait'):
                 # hand-written timing: this operation comes right after the named world event (op, device/place)
                 n0 = len(ev)
                 for _ in range(400):
@@ -353,6 +446,18 @@ def _exec(sched, seed, topo):
                 w.bounce(s['d'])
             elif op == 'release':
                 w.release(s['d'])
+            elif op == 'hold':
+                # armed right before the next operation; how long the attempt is held: given, or 0.5 - 5 s
+                w.hold(s['d'], s['secs'] if 'secs' in s else rnd.choice([0.5, 1.0, 1.5, 2.0, 3.0, 5.0]))
+                h.advance_time_and_run(0)
+                continue
+            elif op == 'unhold':
+                if s['d'] not in w.heldq:
+                    continue
+                w.unhold(s['d'])
+            elif op == 'wait':
+                h.advance_time_and_run(s['secs'])
+                continue
             else:
                 continue
             if any('after' in s2 for s2 in sched[si + 1:si + 2]):
@@ -381,7 +486,7 @@ def _exec(sched, seed, topo):
             pass
 
 
-def cfg_text(spec, topo, maxops, extra):
+def cfg_text(spec, topo, maxops, extra, hold=()):
     t = TOPO[topo]
     return """SPECIFICATION %s
 CONSTANTS
@@ -396,10 +501,11 @@ CONSTANTS
   EntranceCounted = {%s}
   Saved = %s
   MaxAtt <- %s
+  Holdable = {%s}
   MaxOps = %d
 %sCHECK_DEADLOCK FALSE
 """ % (spec, t['cap'], t['tgt'], ', '.join('"%s"' % d for d in t.get('shootable', ['bd_lock'])), ', '.join('"%s"' % d for d in t.get('holding', [])), ', '.join('"%s"' % d for d in t.get('sourcing', [])),
-       ', '.join('"%s"' % d for d in t.get('entrance', {})), 'TRUE' if t.get('game') else 'FALSE', t.get('att', 'MCNoAtt'), maxops, extra)
+       ', '.join('"%s"' % d for d in t.get('entrance', {})), 'TRUE' if t.get('game') else 'FALSE', t.get('att', 'MCNoAtt'), ', '.join('"%s"' % d for d in hold), maxops, extra)
 
 
 def handmade():
@@ -449,22 +555,82 @@ def handmade():
     ]
 
 
+def handmade_holds():
+    """Ejects whose eject_attempt queue event is held back and released later, while other balls move: pinned to world events."""
+    R = {'op': 'request'}
+    D = {'op': 'drain'}
+    S = {'op': 'shot', 'd': 'bd_lock'}
+    REL = {'op': 'release', 'd': 'bd_lock'}
+    T, P, K = 'bd_trough', 'bd_plunger', 'bd_lock'
+    H = lambda d, secs=5.0: {'op': 'hold', 'd': d, 'secs': secs}
+    U = lambda d: {'op': 'unhold', 'd': d}
+    W = lambda secs=0.0: {'op': 'wait', 'secs': secs}
+    L = lambda d, k: {'op': 'leave', 'd': d, 'kind': k}
+    AF = lambda s, op, where: dict(s, after=(op, where))
+    out = []
+    # a ball is on the playfield; the trough's next attempt is held; the playfield ball is shot into the lock, which (where
+    # it feeds the launcher) sends it on to the launcher while the trough waits: released when the lock's coil fires /
+    # its ball has left / has reached the launcher / the launcher fires it on / it is gone, or after a fixed time
+    for pin in (('fire', K), ('leave', K), ('arrive', P), ('fire', P), ('leave', P)):
+        out.append([R, AF(H(T), 'arrive', 'pf'), R, AF(S, 'held', T), AF(U(T), *pin), D, D])
+    for secs in (1.0, 2.0, 3.0):
+        out.append([R, AF(H(T, secs), 'arrive', 'pf'), R, AF(S, 'held', T), W(6.0), D, D])
+    # two balls out, both shot into the lock one after the other while the trough's attempt for a third is held: the
+    # lock's balls pass through the launcher (which has two slots in one topology) during the hold
+    for pin in (('fire', K), ('arrive', P), ('fire', P)):
+        out.append([R, R, W(8.0), H(T), R, AF(S, 'held', T), S, AF(W(), *pin), AF(U(T), *pin), D, D, D])
+    # the other way round: the lock's attempt is held (a held ball released / a hold serving a request with the trough
+    # empty) while the trough feeds the launcher
+    out.append([R, AF(S, 'arrive', 'pf'), W(4.0), H(K), REL, AF(R, 'held', K), AF(U(K), 'fire', T), D, D])
+    out.append([R, AF(S, 'arrive', 'pf'), W(4.0), H(K), REL, AF(R, 'held', K), AF(U(K), 'arrive', P), D, D])
+    out.append([R, AF(H(K, 2.0), 'arrive', 'pf'), S, AF(R, 'held', K), W(6.0), D, D])
+    out.append([R, R, R, W(14.0), S, W(4.0), H(K), R, AF(D, 'held', K), AF(R, 'arrive', T), AF(U(K), 'fire', T), D, D])
+    out.append([R, R, R, W(14.0), S, W(4.0), H(K, 4.0), R, AF(D, 'held', K), AF(R, 'arrive', T), W(8.0), D, D])
+    # the launcher's own attempt is held (a diverter behind it) while the next ball is on its way to it / its ball falls back
+    out.append([H(P, 3.0), R, AF(R, 'held', P), D, D])
+    out.append([R, AF(H(P, 2.0), 'leave', T), AF(R, 'held', P), AF(D, 'arrive', 'pf'), D])
+    out.append([H(T, 2.0), R, R, L(P, 'back'), AF(H(T, 3.0), 'leave', P), D, D])
+    out.append([R, L(T, 'ok'), L(P, 'back'), AF(H(T, 1.5), 'fire', P), R, D, D])
+    # holds on every device at once, released in turn by time
+    out.append([H(T, 1.0), H(P, 2.0), H(K, 3.0), R, R, AF(S, 'arrive', 'pf'), R, D, D, D])
+    return out
+
+
 def run_world(ctx):
     wd = tlc.prepare(ctx.scratch, 'BallWorld', 'ballworld')
     alljobs, alltraces, rejected = [], [], {}
     for topo in ('balls', 'balls2', 'balls3', 'balls4', 'balls5', 'balls6'):
         with open(wd + '/MC.cfg', 'w') as f:
+            # (no held attempts in this one: `att` stays "free" everywhere, the state space is that of the world alone)
             f.write(cfg_text('Spec', topo, 4 if ctx.quick else 6, 'INVARIANT TypeOK\nINVARIANT NeverOverfull\n'))
         r = tlc.expect_ok(tlc.check(wd, 'BallWorldMC', 'MC.cfg', workers=8, timeout=2000), 'BallWorld design check')
         ctx.add_tlc('BallWorldMC(%s)' % topo, r, {'Balls': 3, 'Devs': 3, 'MaxOps': 4 if ctx.quick else 6})
+        if topo in MC_HOLD and (ctx.quick is False or topo in MC_HOLD_QUICK):
+            # the world with held attempts (every device holdable), smaller budget
+            mo = MC_HOLD[topo] + (0 if ctx.quick else 1)
+            with open(wd + '/MCH.cfg', 'w') as f:
+                f.write(cfg_text('Spec', topo, mo, 'INVARIANT TypeOK\nINVARIANT NeverOverfull\n', HOLDABLE))
+            r = tlc.expect_ok(tlc.check(wd, 'BallWorldMC', 'MCH.cfg', workers=8, timeout=2000), 'BallWorld design check (held attempts)')
+            ctx.add_tlc('BallWorldMC(%s, held attempts)' % topo, r, {'Balls': 3, 'Devs': 3, 'MaxOps': mo, 'Holdable': 3})
         with open(wd + '/Gen.cfg', 'w') as f:
-            f.write(cfg_text('Spec', topo, 9, ''))
+            f.write(cfg_text('SpecBase', topo, 9, ''))
         behs, _ = tlc.simulate(wd, 'BallWorldMC', 'Gen.cfg', num=60 if ctx.quick else 1500, depth=40, seed=ctx.seed)
         jobs = [([s['act'] for s in b], ctx.seed * 1000 + i, topo) for i, b in enumerate(behs)]
         jobs += [(s, ctx.seed * 77 + i, topo) for i, s in enumerate(handmade())]
+        if topo in HOLD_TOPOS:
+            # schedules with held eject attempts: behaviours of the full spec that arm at least one hold, and hand-written ones
+            with open(wd + '/GenH.cfg', 'w') as f:
+                f.write(cfg_text('Spec', topo, 9, '', HOLDABLE))
+            want = 20 if ctx.quick else 500
+            behs, _ = tlc.simulate(wd, 'BallWorldMC', 'GenH.cfg', num=3 * want, depth=40, seed=ctx.seed)
+            hs = [[s['act'] for s in b] for b in behs]
+            hs = [a for a in hs if any(x['op'] == 'hold' for x in a)][:want]
+            jobs += [(a, ctx.seed * 1000 + 500000 + i, topo) for i, a in enumerate(hs)]
+            jobs += [(s, ctx.seed * 77 + 5000 + i, topo) for i, s in enumerate(handmade_holds())]
+            ctx.coverage.setdefault('held_attempt_schedules', {})[topo] = len(hs) + len(handmade_holds())
         traces = harness.pmap(exec_schedule, jobs, chunk=2, item_timeout=180)
         with open(wd + '/Trace.cfg', 'w') as f:
-            f.write(cfg_text('TSpec', topo, 1000000, 'INVARIANT TypeOK\nINVARIANT Reporter\n'))
+            f.write(cfg_text('TSpec', topo, 1000000, 'INVARIANT TypeOK\nINVARIANT Reporter\n', HOLDABLE))
         with open(wd + '/BallWorldTraceT.tla', 'w') as f:
             f.write('---- MODULE BallWorldTraceT ----\nEXTENDS BallWorldTrace, BallWorldMCDefs\n====\n')
         v = tlc.validate_traces(wd, 'BallWorldTraceT', 'Trace.cfg', traces)
@@ -486,6 +652,9 @@ def run_world(ctx):
     return alljobs, alltraces, rejected
 
 
+# exhaustive check of the world with held attempts: topology -> MaxOps at the quick tier (one more at thorough)
+MC_HOLD = {'balls6': 2, 'balls3': 1, 'balls': 2, 'balls2': 2}
+MC_HOLD_QUICK = ('balls6',)
 CAPS = {'balls': {'bd_trough': 3, 'bd_plunger': 1, 'bd_lock': 2}, 'balls2': {'bd_trough': 3, 'bd_plunger': 2, 'bd_lock': 2},
         'balls3': {'bd_trough': 3, 'bd_plunger': 1, 'bd_lock': 2}, 'balls4': {'bd_trough': 3, 'bd_plunger': 1, 'bd_lock': 2},
         'balls5': {'bd_trough': 3, 'bd_plunger': 1, 'bd_lock': 2}, 'balls6': {'bd_trough': 3, 'bd_plunger': 1, 'bd_lock': 2}}
@@ -518,6 +687,13 @@ def classify(fe, topo):
         if fe.get('_slow', 0) > 0 and fe.get('_rolling', 0) == fe.get('_slow', 0):
             # the only ball on its way is one whose eject already timed out for MPF (late arrival)
             return 'fire-at-full-target:late-ball'
+        if fe.get('_heldfill', 0) > 0:
+            # the eject_attempt queue event of this eject was held back by a handler and released, and the target filled up
+            # during the hold with a ball MPF had been shown before this instant (another source's ball seen leaving, a
+            # ball arrived): the source was fired on the strength of what the target looked like before the hold.  (Balls
+            # MPF has not been shown yet, or only in this very instant, are the recorded same-instant / ball-rolling races
+            # whether or not an attempt was held.)
+            return 'fire-at-full-target:target-filled-while-attempt-held'
         why = [n for n, k in (('ball-rolling:requested-after-it-left' if fe.get('_latereq') else 'ball-rolling', '_rolling'), ('ball-falling-back', '_back'), ('same-instant', '_same'),
                               ('target-ejecting', '_tfired')) if fe.get(k, 0) > 0]
         return 'fire-at-full-target:' + ('+'.join(why) if why else 'ball-sitting')
@@ -547,10 +723,13 @@ def report(ctx, pid, jobs, traces, rejected):
 
 def run(ctx):
     jobs, traces, v = run_world(ctx)
-    ctx.coverage['monitors'] += ['Bounded', 'NoFireAtFullTarget (guard of Fire)', 'AtRestAgreement', 'SumEqualsKnown']
+    ctx.coverage['monitors'] += ['Bounded', 'NoFireAtFullTarget (guard of Fire; also for the fire that follows a held and released eject_attempt)',
+                                 'AtRestAgreement', 'SumEqualsKnown']
     report(ctx, 'C04', jobs, traces, v)
     ctx.assumptions += ['the world double is trusted; topology trough(3) -> plunger(1) -> playfield, lock(2) -> playfield',
-                        'eject outcomes: success, ball falls back, ball does not move; no game running (requests are direct)']
+                        'eject outcomes: success, ball falls back, ball does not move; no game running (requests are direct)',
+                        'held eject attempts: one handler per device, holds of 0.5-5 s, one hold of a device at a time; targets fill up '
+                        'during a hold only from their other source (no playfield shot enters a device that is also an eject target)']
 
 
 def replay(ctx, data):
